@@ -206,6 +206,16 @@ func TestC19(t *testing.T) {
 				key := types.EncryptionKey{KeyType: pacSigEtype(sty), KeyValue: randKey(rng, pacSigEtype(sty))}
 				exhaustive := Thorough() || (!rodc && (ti+int(Seed()))%len(pacSigTypes) == 0 && name == "win2k")
 				c19Signed(pool, v, rng, name, bufs, key, sty, rodc, exhaustive)
+				// the same PAC with the signature buffers newer KDCs add (16: ticket signature, 19: extended KDC
+				// signature): for the server signature they are signed data like any other buffer, only 6 and 7 are zeroed
+				if !rodc && (name == names[0] || ti == int(Seed())%len(pacSigTypes)) {
+					extra := [][]uint32{{16}, {19}, {16, 19}}[(ti+len(name))%3]
+					b2 := append([]pacBuf{}, bufs...)
+					for j, ty := range extra {
+						b2 = append(b2, pacBuf{ty, sigBuf(pacSigTypes[(ti+j)%len(pacSigTypes)], false, rng)})
+					}
+					c19Signed(pool, v, rng, fmt.Sprintf("%s+buf%v", name, extra), b2, key, sty, false, false)
+				}
 			}
 		}
 	}
